@@ -35,7 +35,8 @@ func (b *embeddedBackend) Get(key []byte) (*redisValue, error) {
 	if kv.IsDeletedOrExpired(entry.Meta, entry.ExpiresAt) {
 		return &redisValue{Found: false}, nil
 	}
-	val := append([]byte(nil), entry.Value...)
+	// An empty string is a value, not a missing key: keep the copy non-nil.
+	val := append([]byte{}, entry.Value...)
 	return &redisValue{
 		Value:     val,
 		ExpiresAt: entry.ExpiresAt,
@@ -147,7 +148,7 @@ func (b *embeddedBackend) MGet(keys [][]byte) ([]*redisValue, error) {
 					out[i] = &redisValue{Found: false}
 					continue
 				}
-				valCopy := append([]byte(nil), entry.Value...)
+				valCopy := append([]byte{}, entry.Value...)
 				out[i] = &redisValue{
 					Value:     valCopy,
 					ExpiresAt: entry.ExpiresAt,
